@@ -202,13 +202,78 @@ def guard_edges(body, pred):
         if bi in body.cleanup or b["t"]["k"] != "switch":
             continue
         term, outs = body.switch_info(bi)
+        # an edge is identified by (from, to): when several switch values lead to the same block (`A | B =>`), the pair
+        # is a guard edge only if EVERY value that takes it satisfies the predicate
+        by_tgt = {}
         for tgt, _lab, meaning in outs:
-            try:
-                if pred(term, meaning, body, bi, tgt):
-                    out.append((bi, tgt))
-            except Exception:
-                raise
+            by_tgt.setdefault(tgt, []).append(bool(pred(term, meaning, body, bi, tgt)))
+        for tgt, oks in by_tgt.items():
+            if all(oks):
+                out.append((bi, tgt))
     return out
+
+
+def lift_guards(body, guards):
+    """guard edges implied through a boolean temporary. `matches!(..)`, `a && b` and `let ok = if .. {true} else {false}`
+    are lowered to constant stores into a temporary inside the branches and a later switch on that temporary. If every
+    store of the value that selects the edge S->T lies behind the given guard edges (unreachable from the entry without
+    crossing one), then S->T can only be taken after a guard edge was crossed: it is added. Sound refinement (only
+    infeasible paths are removed); iterated to a fixpoint."""
+    guards = set(guards)
+    defs = body.defs()
+
+    def const_defs(l, hops=2):
+        """[(def block, int value)] if every whole definition of l is an integer constant (looking through one copy / Not)"""
+        out = []
+        for d in defs.get(l, []):
+            if d[0] != "s":
+                return None
+            st = body.blocks[d[1]]["s"][d[2]]
+            v = mir.int_value(body.term_rvalue(st["rv"]))
+            if v is None:
+                rv = st["rv"]
+                src = None
+                if hops and rv.get("r") == "use" and rv["o"]["k"] in ("cp", "mv") and "p" not in rv["o"]["p"]:
+                    src, neg = rv["o"]["p"]["l"], False
+                elif hops and rv.get("r") == "un" and rv.get("op") == "Not" and rv["o"]["k"] in ("cp", "mv") and "p" not in rv["o"]["p"]:
+                    src, neg = rv["o"]["p"]["l"], True
+                if src is None:
+                    return None
+                sub = const_defs(src, hops - 1)
+                if sub is None:
+                    return None
+                out += [(bi, (1 - x) if neg else x) for bi, x in sub]
+            else:
+                out.append((d[1], int(v)))
+        return out or None
+    changed = True
+    while changed:
+        changed = False
+        for sb, blk in enumerate(body.blocks):
+            if sb in body.cleanup or blk["t"]["k"] != "switch":
+                continue
+            d = blk["t"]["d"]
+            if d["k"] not in ("cp", "mv") or "p" in d["p"]:
+                continue
+            cd = const_defs(d["p"]["l"])
+            if not cd:
+                continue
+            _term, outs = body.switch_info(sb)
+            for tgt, _lab, meaning in outs:
+                if (sb, tgt) in guards:
+                    continue
+                if isinstance(meaning, bool):
+                    sel = [bi for bi, v in cd if bool(v) is meaning]
+                elif isinstance(meaning, int):
+                    sel = [bi for bi, v in cd if v == meaning]
+                elif isinstance(meaning, tuple) and meaning and meaning[0] == "not":
+                    sel = [bi for bi, v in cd if v not in meaning[1]]
+                else:
+                    continue
+                if sel and all(body.path_to([0], bi, cut_edges=guards) is None for bi in sel):
+                    guards.add((sb, tgt))
+                    changed = True
+    return list(guards)
 
 
 def enclosing_loop_headers(body, bi):
